@@ -68,8 +68,9 @@ impl SourceMap {
                     return false;
                 }
 
-                // Somewhere within begin and end, so fine regardless of column
-                if line > sl.begin.line && line < sl.end.line {
+                // Somewhere within begin and end, so fine regardless of column. (Without a column the question is which
+                // statements belong to the line, as a listing asks it: a statement belongs to the line it begins on only)
+                if column.is_some() && line > sl.begin.line && line < sl.end.line {
                     return true;
                 }
 
